@@ -137,8 +137,25 @@ LoadJson(file, t, u) ==
   IN [s |-> [t3 EXCEPT !.ref = Decr(@, r)], r |-> r]                 \* Put() below takes the user's reference
 
 (* ---- actions ---- *)
-PutS(k, res) == /\ hs[k] = 0 /\ src' = [res.s EXCEPT !.ref = Incr(@, res.r)] /\ hs' = [hs EXCEPT ![k] = res.r]
-PutD(k, res) == /\ hd[k] = 0 /\ dst' = [res.s EXCEPT !.ref = Incr(@, res.r)] /\ hd' = [hd EXCEPT ![k] = res.r]
+(* a result goes to the first free slot (slots are interchangeable); in the
+   source a full table is overwritten (`u = f(u, v)`: incref the result, decref
+   what the slot held), so that two held operands can meet in one call *)
+FirstFreeIn(hh, k) == hh[k] = 0 /\ \A j \in Slots : hh[j] = 0 => k <= j
+PutS(k, res) == /\ (IF \E j \in Slots : hs[j] = 0 THEN FirstFreeIn(hs, k) ELSE TRUE)
+                /\ src' = [res.s EXCEPT !.ref = IF hs[k] = 0 THEN Incr(@, res.r) ELSE Decr(Incr(@, res.r), hs[k])]
+                /\ hs' = [hs EXCEPT ![k] = res.r]
+PutD(k, res) == /\ FirstFreeIn(hd, k) /\ dst' = [res.s EXCEPT !.ref = Incr(@, res.r)] /\ hd' = [hd EXCEPT ![k] = res.r]
+(* functions built in one step (BuildTT: var + ite per variable, as the drivers
+   do), so that multi-level diagrams with shared nodes and complemented edges
+   are transferred at depth 2; overridden per configuration *)
+NVs == Len(NameSeq)
+X(k) == VarF(NVs, k)
+NotX(k) == NotF(NVs, X(k))
+SrcFuns == {X(1), AndF(X(1), X(2)), IteF(X(1), X(2), X(NVs)), OrF(X(1), AndF(X(2), NotX(NVs))),
+            XorF(X(2), X(NVs)), NotF(NVs, AndF(X(1), X(NVs)))}
+DstFuns == {X(2), AndF(X(1), X(NVs))}
+SrcBuild(k, F) == PutS(k, BuildTT(src, F)) /\ UNCHANGED <<dst, hd>> /\ last' = <<"sbuild", k, F>>
+DstBuild(k, F) == PutD(k, BuildTT(dst, F)) /\ UNCHANGED <<src, hs>> /\ last' = <<"dbuild", k, F>>
 SrcVar(k, nm) == PutS(k, FindOrAdd(src, LevelOf(src, nm), -1, 1)) /\ UNCHANGED <<dst, hd>> /\ last' = <<"svar", k, nm>>
 SrcOp(k, g, u, v) == PutS(k, Ite(src, ValOf(hs, g), ValOf(hs, u), ValOf(hs, v))) /\ UNCHANGED <<dst, hd>>
                      /\ last' = <<"site", k, g, u, v>>
@@ -149,7 +166,6 @@ DstGC == dst' = CollectAll(dst) /\ UNCHANGED <<src, hs, hd>> /\ last' = <<"dgc">
 Transfer(kind, k, a) ==
   LET u == ValOf(hs, a)
       file == FileOf(src, {u}) IN
-  /\ hd[k] = 0
   /\ CASE kind = "copy" -> PutD(k, CopyBetween(src, dst, u))
        [] kind = "pickle_levels" -> PickleAccepts(file, dst, TRUE) /\ PutD(k, LoadNode(file, dst, u))
        [] kind = "pickle_names" -> PutD(k, LoadNode(file, dst, u))
@@ -171,17 +187,30 @@ DoDddmp(a, b) ==
           /\ last' = <<"dddmp", roots, res.roots>>
   /\ UNCHANGED <<src, hs, hd>>
 Next == \/ \E k \in Slots, nm \in Names : SrcVar(k, nm) \/ DstVar(k, nm)
+        \/ \E k \in Slots, F \in SrcFuns : SrcBuild(k, F)
+        \/ \E k \in Slots, F \in DstFuns : DstBuild(k, F)
         \/ \E a, b \in SymOf(hs) : DoDddmp(a, b)
         \/ \E k \in Slots : \E g, u, v \in SymOf(hs) : SrcOp(k, g, u, v)
         \/ \E k \in Slots : DstDrop(k)
         \/ DstGC
         \/ \E kind \in {"copy", "pickle_levels", "pickle_names", "json"}, k \in Slots, a \in SymOf(hs) : Transfer(kind, k, a)
+(* the quick configuration: operands come from `build` only (no ite over slot
+   triples, which multiplies the states without adding transferred shapes) *)
+NextQ == /\ TLCGet("level") < MaxDepth
+         /\ \/ \E k \in Slots, F \in SrcFuns : SrcBuild(k, F)
+            \/ \E k \in Slots, F \in DstFuns : DstBuild(k, F)
+            \/ \E a, b \in SymOf(hs) : DoDddmp(a, b)
+            \/ \E k \in Slots : DstDrop(k)
+            \/ DstGC
+            \/ \E kind \in {"copy", "pickle_levels", "pickle_names", "json"}, k \in Slots, a \in SymOf(hs) : Transfer(kind, k, a)
+NextB == TLCGet("level") < MaxDepth /\ Next      \* the depth guard first: the last level's successors are never computed
 Bound == /\ Cardinality(DOMAIN src.succ) <= MaxNodes /\ Cardinality(DOMAIN dst.succ) <= MaxNodes
-         /\ TLCGet("level") <= MaxDepth
 
 InvSrc == Canonical(src) /\ RefExact(src, LedgerOf(hs))
 InvDst == /\ Canonical(dst) /\ DenInjective(dst)
           /\ (RefExact(dst, LedgerOf(hd)) \/ last[1] = "dddmp")     \* the manager returned by dddmp.load holds no user references yet
+(* NON-VACUITY PROBE (expected to be VIOLATED): the receiver never holds a two-level diagram *)
+ProbeFlat == \A n \in NodesOf(dst) \ {1} : Abs(dst.succ[n][2]) = 1 /\ Abs(dst.succ[n][3]) = 1
 StepOK ==
   LET a == last' IN
   IF a[1] \in {"copy", "pickle_levels", "pickle_names", "json"}
